@@ -148,6 +148,9 @@ Proof.
 Qed.
 
 (* ================================================================ construct level: _partial *)
+Lemma tmem_app x l1 l2 : tmem x (l1 ++ l2) = tmem x l1 || tmem x l2.
+Proof. induction l1 as [|y r IH]; cbn; [reflexivity|]. rewrite IH, orb_assoc. reflexivity. Qed.
+
 Lemma promote_branch_small s1 s2 parent acc br :
   perm_oracle s1 -> perm_oracle s2 -> (List.length br <= 1)%nat ->
   promote_branch s1 parent acc br = promote_branch s2 parent acc br.
@@ -196,15 +199,103 @@ Proof.
   rewrite forallb_forall in HG. split; [apply tmem_In, HG, Hn|apply tmem_In, Hn].
 Qed.
 
+(* --- if / try: a branch with at most one effective name yields the same list under every order *)
+Lemma filter_perm {A} (f : A -> bool) l l' : Permutation l l' -> Permutation (filter f l) (filter f l').
+Proof.
+  induction 1 as [|x l l' _ IH|x y l|l l' l'' _ IH1 _ IH2]; cbn.
+  - reflexivity.
+  - destruct (f x); [constructor|]; exact IH.
+  - destruct (f x), (f y); try reflexivity. apply perm_swap.
+  - etransitivity; eassumption.
+Qed.
+
+Definition fresh (parent : list ident) (acc : list decl) (x : ident) : bool :=
+  negb (tmem x parent || tmem x (map fst acc)).
+
+Lemma record_fresh parent br acc x : fresh parent acc x = true ->
+  record parent br acc x = acc ++ [(x, type_in br x)].
+Proof. unfold fresh, record. intros H. apply negb_true_iff in H. rewrite H. reflexivity. Qed.
+
+Lemma record_stale parent br acc x : fresh parent acc x = false -> record parent br acc x = acc.
+Proof. unfold fresh, record. intros H. apply negb_false_iff in H. rewrite H. reflexivity. Qed.
+
+Lemma fresh_mono parent acc d x : fresh parent acc x = false -> fresh parent (acc ++ d) x = false.
+Proof.
+  unfold fresh, decl in *. intros H. apply negb_false_iff in H. apply negb_false_iff.
+  apply orb_true_iff in H as [H|H]; [rewrite H; reflexivity|].
+  rewrite map_app, tmem_app, H. cbn. apply orb_true_r.
+Qed.
+
+Lemma filter_fresh_nil parent acc d l :
+  filter (fresh parent acc) l = [] -> filter (fresh parent (acc ++ d)) l = [].
+Proof.
+  induction l as [|y r IH]; cbn; [reflexivity|].
+  destruct (fresh parent acc y) eqn:E; [discriminate|].
+  rewrite (fresh_mono parent acc d y E). exact IH.
+Qed.
+
+Lemma fold_record_eff parent br l : forall acc,
+  (List.length (filter (fresh parent acc) l) <= 1)%nat ->
+  fold_left (record parent br) l acc = acc ++ map (fun x => (x, type_in br x)) (filter (fresh parent acc) l).
+Proof.
+  induction l as [|y r IH]; cbn [fold_left filter]; intros acc HL.
+  - cbn. rewrite app_nil_r. reflexivity.
+  - destruct (fresh parent acc y) eqn:E.
+    + rewrite (record_fresh _ _ _ _ E). cbn [List.length] in HL.
+      assert (filter (fresh parent acc) r = []) as Hnil.
+      { destruct (filter (fresh parent acc) r); [reflexivity|cbn in HL; lia]. }
+      rewrite IH.
+      * rewrite (filter_fresh_nil _ _ _ _ Hnil), Hnil. cbn. rewrite app_nil_r. reflexivity.
+      * rewrite (filter_fresh_nil _ _ _ _ Hnil). cbn. lia.
+    + rewrite (record_stale _ _ _ _ E). apply IH. exact HL.
+Qed.
+
+Lemma effective_fresh parent acc br :
+  effective parent (map fst acc) br = filter (fresh parent acc) (map fst br).
+Proof. reflexivity. Qed.
+
+Lemma promote_branch_eff s parent acc br :
+  perm_oracle s -> (List.length (effective parent (map fst acc) br) <= 1)%nat ->
+  promote_branch s parent acc br =
+  acc ++ map (fun x => (x, type_in br x)) (effective parent (map fst acc) br).
+Proof.
+  intros HP HL. unfold promote_branch. rewrite effective_fresh in *.
+  assert (filter (fresh parent acc) (s (map fst br)) = filter (fresh parent acc) (map fst br)) as HE.
+  { apply perm_small; [exact HL|]. apply filter_perm, HP. }
+  rewrite fold_record_eff; rewrite HE; [reflexivity|exact HL].
+Qed.
+
+Lemma promote_if_guarded s1 s2 parent brs : perm_oracle s1 -> perm_oracle s2 ->
+  forall acc, guard_if parent (map fst acc) brs = true ->
+  fold_left (promote_branch s1 parent) brs acc = fold_left (promote_branch s2 parent) brs acc.
+Proof.
+  intros H1 H2. induction brs as [|br r IH]; cbn [fold_left guard_if]; intros acc HG; [reflexivity|].
+  apply andb_true_iff in HG as [HL HG]. apply Nat.leb_le in HL.
+  rewrite (promote_branch_eff s1 _ _ _ H1 HL), (promote_branch_eff s2 _ _ _ H2 HL).
+  apply IH. rewrite map_app, map_map. cbn [fst]. rewrite map_id. exact HG.
+Qed.
+
 Lemma promote_guarded s1 s2 c :
   perm_oracle s1 -> perm_oracle s2 -> guard c = true -> promote s1 c = promote s2 c.
 Proof.
   intros H1 H2 HG. destruct c as [parent brs|d pr]; cbn in *.
-  - unfold promote_if. apply fold_left_ext_in. intros acc br Hbr.
-    rewrite forallb_forall in HG. specialize (HG br Hbr). apply Nat.leb_le in HG.
-    apply promote_branch_small; assumption.
+  - unfold promote_if. apply promote_if_guarded; assumption.
   - unfold promote_loop. rewrite (loop_order_guarded s1), (loop_order_guarded s2) by assumption.
     reflexivity.
+Qed.
+
+Lemma filter_len_le {A} (f : A -> bool) l : (List.length (filter f l) <= List.length l)%nat.
+Proof. induction l as [|x r IH]; cbn; [lia|]. destruct (f x); cbn; lia. Qed.
+
+(* the simple sufficient condition: at most one new name per branch *)
+Lemma guard_if_small parent brs : forall acc,
+  forallb (fun br : list decl => (List.length br <=? 1)%nat) brs = true -> guard_if parent acc brs = true.
+Proof.
+  induction brs as [|br r IH]; cbn [forallb guard_if]; intros acc H; [reflexivity|].
+  apply andb_true_iff in H as [HL HR]. apply Nat.leb_le in HL.
+  apply andb_true_iff. split; [|apply IH, HR].
+  apply Nat.leb_le. unfold effective.
+  eapply Nat.le_trans; [apply filter_len_le|]. rewrite map_length. exact HL.
 Qed.
 
 (* ================================================================ construct level: refuted, and the guard is tight *)
@@ -448,8 +539,6 @@ Proof.
     apply tmem_In in I. congruence.
 Qed.
 
-Lemma tmem_app x l1 l2 : tmem x (l1 ++ l2) = tmem x l1 || tmem x l2.
-Proof. induction l1 as [|y r IH]; cbn; [reflexivity|]. rewrite IH, orb_assoc. reflexivity. Qed.
 
 Lemma text_eqb_sym a b : text_eqb a b = text_eqb b a.
 Proof.
@@ -697,3 +786,14 @@ Qed.
 Lemma witness_fixed :
   transl_fixed (fun _ => sid) witness_prog = transl_fixed (fun _ => srev) witness_prog.
 Proof. vm_compute. reflexivity. Qed.
+
+(* a branch may declare two new names when an earlier branch has already recorded one of them *)
+Definition guarded_prog2 : list item :=
+  [ IStmt (SAssign n_cnd 0);
+    IDef (txt "fn"%string) [SIf [] [[SAssign n_a 0]; [SAssign n_b 1; SAssign n_a 0]]] ].
+
+Lemma guarded_prog2_ok :
+  o_ok (transl (fun _ => sid) guarded_prog2) = true /\
+  o_funs (transl (fun _ => srev) guarded_prog2) =
+    [(txt "fn"%string, [NDecl n_a 0; NDecl n_b 1; NIf [[NAssign n_a]; [NAssign n_b; NAssign n_a]]])].
+Proof. split; vm_compute; reflexivity. Qed.
